@@ -8,6 +8,7 @@ package interp
 // external or because they use "unsafe" or "reflect" operations.
 
 import (
+	"go/types"
 	"bytes"
 	"math"
 	"os"
@@ -148,6 +149,10 @@ func ext۰math۰Float64frombits(fr *frame, args []value) value {
 }
 
 func ext۰math۰Float64bits(fr *frame, args []value) value {
+	if sy, ok := args[0].(*sym); ok {
+		// z3's fp.to_ieee_bv; NaN payloads are not modelled (no NaN arises from decimal numerals)
+		return &sym{e: "(fp.to_ieee_bv " + sy.e + ")", k: symBV, w: 64, gk: types.Uint64}
+	}
 	return math.Float64bits(args[0].(float64))
 }
 
